@@ -65,11 +65,14 @@ pub struct HCfg {
     /// when the application answers who-are-you queries and inbound requests is free (like the
     /// timing of submissions): only departures from the network / timer default cost a deviation
     pub free_app_timing: bool,
+    /// properties whose clauses are evaluated in this world (empty: all). A violated clause of
+    /// another property must not end the search for the property being decided.
+    pub focus: Vec<String>,
 }
 
 impl Default for HCfg {
     fn default() -> Self {
-        HCfg { nodes: 2, workload: vec![], retries: 1, session_timeout: None, session_capacity: None, allow_drop: true, allow_dup: true, allow_reorder: true, allow_restart: vec![], allow_late_way: true, allow_early_timer: true, force_nonce: false, packet_filter: false, ghost: None, known_seq: 1, rate_limits: None, ipv6: false, free_app_timing: false }
+        HCfg { nodes: 2, workload: vec![], retries: 1, session_timeout: None, session_capacity: None, allow_drop: true, allow_dup: true, allow_reorder: true, allow_restart: vec![], allow_late_way: true, allow_early_timer: true, force_nonce: false, packet_filter: false, ghost: None, known_seq: 1, rate_limits: None, ipv6: false, free_app_timing: false, focus: vec![] }
     }
 }
 
@@ -332,6 +335,9 @@ impl World {
     }
 
     pub fn violate(&mut self, prop: &str, clause: &str, key: &str, detail: String) {
+        if !self.cfg.focus.is_empty() && !self.cfg.focus.iter().any(|p| p == prop) {
+            return;
+        }
         self.violations.push(Violation { clause: clause.into(), key: format!("{prop}:{key}"), detail, replay: json!(null) });
     }
 
